@@ -680,6 +680,8 @@ pub fn expected_connect(cfg: &SimCfg, connected_before: bool, prior_client_id: O
         (None, Some(p)) => p.to_string(),
         (None, None) => String::new(),
     };
+    // MQTT 3.1.1: a zero-length client id requires CleanSession 1 [MQTT-3.1.3-7]
+    let clean_start = clean_start || (!cfg.v5 && client_id.is_empty());
     let mut c = rf::Connect { clean_start, keep_alive: cfg.keep_alive.unwrap_or(0), client_id, ..Default::default() };
     if cfg.v5 {
         c.session_expiry = cfg.session_expiry;
